@@ -433,16 +433,16 @@ class C14Exec(execs.PyExec):
             d = execs.diff_doc(doc(h), doc(direct), mode=mode)
             if d:
                 msgs.append("feature %s: make_histograms differs from fill.numpy of the same tree on the columns: %s" % (f, d))
-            # a value within rounding distance of a bin edge: the vectorised and the scalar index formulas (and exact
-            # arithmetic) may legitimately put it on either side; only the vectorised direct fill is compared then
+            # a value within rounding distance of a bin edge: exact arithmetic may put it on the other side than the
+            # floating-point index formula; the model comparison is skipped then (the row-wise one is not)
             amb = near_edge(axes, feature, cols)
-            if not amb:
-                rowwise = build_direct(feature, axes)
-                for i in range(n):
-                    rowwise.fill({c: cols[c][i].item() for c in feature})
-                d = execs.diff_doc(execs.prune_doc(doc(h)), execs.prune_doc(doc(rowwise)), mode=mode)
-                if d:
-                    msgs.append("feature %s: make_histograms differs from filling the same tree row by row: %s" % (f, d))
+            # the row-wise fill uses the same index formulas as the vectorised fill, near edges too
+            rowwise = build_direct(feature, axes)
+            for i in range(n):
+                rowwise.fill({c: cols[c][i].item() for c in feature})
+            d = execs.diff_doc(execs.prune_doc(doc(h)), execs.prune_doc(doc(rowwise)), mode=mode)
+            if d:
+                msgs.append("feature %s: make_histograms differs from filling the same tree row by row: %s" % (f, d))
             # model
             if any(a[0] in ("leaf", "stack", "fraction", "cut") for a in axes):
                 self.stat["model_skipped_leaf"] += 1
@@ -491,8 +491,11 @@ class C14Exec(execs.PyExec):
         from histogrammar.dfinterface.make_histograms import get_bin_specs
 
         try:
+            # (a leaf-type specification in a middle dimension ends the tree early: get_bin_specs then has fewer
+            # specifications than the feature has dimensions and cannot be handed back for that feature)
+            early = any(len(plan[f][0]) != len(f.split(":")) for f in feats)
             specs2 = get_bin_specs(hists)
-            h2 = self.call(other, p, features=list(feats), bin_specs=copy.deepcopy(specs2), time_axis=tax, var_dtype=dict(vdt))
+            h2 = hists if early else self.call(other, p, features=list(feats), bin_specs=copy.deepcopy(specs2), time_axis=tax, var_dtype=dict(vdt))
             for f in feats:
                 if len(plan[f][0]) != len(f.split(":")):
                     continue   # a leaf-type specification in a middle dimension ends the tree early: fewer specs than dimensions
